@@ -1640,3 +1640,45 @@ def walker_kind_blind(ctx, rule: str, f, what: str) -> None:
     c.ob(rule, not bad, f, "walker-visits-kind-blind", f"all {len(visits)} collecting sites of the walker run for states of every kind" if not bad else
          f"'{stmt_text(bad[0][0])}' collects {what} only for some kinds of state ({bad[0][1]})", bad[0][0] if bad else f.node)
     c.floor(rule, f"collecting sites in {f.short}", len(visits), 3)
+
+
+def arming_key_is_cancelling_key(ctx, rule: str) -> None:
+    """The key under which a state's timers and services are registered is the key its exit cancels them by.  Arming
+    (``_schedule_state_tasks`` -> ``_after_timer`` / ``_invoke_service`` with ``owner_id``) and cancelling
+    (``_cancel_state_tasks`` -> ``cancel_by_owner`` / the timer-flag lookup) are two sites that each look fine alone; a task armed under
+    another key (the invoke id, a per-timer key) survives the exit of its state and delivers a late result to a later activation."""
+    c, p = ctx.c, ctx.p
+    sch = p.method("BaseInterpreter", "_schedule_state_tasks")
+    st_param = sch.params[1] if len(sch.params) > 1 else "state"
+    keys = []
+    for x in own_nodes(sch.node):
+        if isinstance(x, ast.Call) and isinstance(x.func, ast.Attribute) and norm(x.func.value) == "self" and x.func.attr in ("_after_timer", "_invoke_service"):
+            k = next((kw.value for kw in x.keywords if kw.arg == "owner_id"), None)
+            if k is None:
+                callee = p.method("Interpreter", x.func.attr)
+                prm = [q for q in callee.params if q != "self"]
+                if "owner_id" in prm and prm.index("owner_id") < len(x.args):
+                    k = x.args[prm.index("owner_id")]
+            keys.append((x, k))
+    if not c.expect(rule, "arming calls with an owner key in _schedule_state_tasks", len(keys), 2, sch,
+                    "_schedule_state_tasks no longer arms timers and services under an owner key"):
+        return
+    cancel_keys = set()
+    for v in VIEWS:
+        cs = p.method(v, "_cancel_state_tasks")
+        cp = cs.params[1] if len(cs.params) > 1 else "state"
+        for y in own_nodes(cs.node):
+            if isinstance(y, ast.Call) and isinstance(y.func, ast.Attribute) and y.func.attr in ("cancel_by_owner", "pop", "get") and y.args:
+                cancel_keys.add(norm(y.args[0]).replace(cp, "<state>"))
+            if isinstance(y, ast.Subscript):
+                cancel_keys.add(norm(y.slice).replace(cp, "<state>"))
+            if isinstance(y, ast.Compare):
+                for side in [y.left] + list(y.comparators):
+                    if cp in norm(side):
+                        cancel_keys.add(norm(side).replace(cp, "<state>"))
+    for x, k in keys:
+        kt = norm(k).replace(st_param, "<state>") if k is not None else "?"
+        ok = k is not None and kt == "<state>.id" and kt in cancel_keys
+        c.ob(rule, ok, sch, f"armed-under-cancelled-key:{x.func.attr}", "tasks are armed under the key the exit routine cancels by (the state id)" if ok else
+             f"'{stmt_text(x)}' arms under '{norm(k) if k is not None else '?'}' while _cancel_state_tasks cancels by {sorted(cancel_keys)[:3]}: whenever the two differ "
+             f"(an invoke with its own id) the task survives the exit of its state and its late result is delivered to a later activation", x)
